@@ -101,6 +101,8 @@ func genC02(g *gen) {
 	g.line("]%%string.")
 	genC02KeyWrites(g)
 	genAEADFacts(g, "gen_c02_aead")
+	genFastLane(g, "gen_c02_fast_lane_types")
+	genSessionKeyCopies(g, "gen_c02_session_key")
 }
 
 // roleFlagWriters: functions of internal/crypto that set isInitiator (by
@@ -230,4 +232,7 @@ func genC01(g *gen) {
 	genAEADFacts(g, "gen_c01_aead")
 	genKeyWritesNamed(g, "gen_c01_key_writes")
 	genPassThroughPairs(g)
+	genFreshKeypairs(g, "gen_c01_responder_fresh_keypair")
+	genRegisterAfterKeyExchange(g, "gen_c01_register_after_key_exchange")
+	genFastLane(g, "gen_c01_fast_lane_types")
 }
